@@ -139,6 +139,11 @@ class RestCtx(FsmCtx):
         if ph == 0:
             if st != "ESTABLISHED" or cfg["remote_as"] > 65535:
                 return None
+            if not getattr(self, "ts_rr_done", False) and rng.chance(0.5):
+                # first a route refresh for IPv4 unicast in this session (repeated in the next one)
+                self.ts_rr_done = True
+                self.ts_rr = True
+                return ["rest", "POST", "/v1/peer/%s/send/route-refresh" % PEER, "ok", {"afi": 1, "safi": 1, "res": 0}]
             self.ts_phase = 1
             self.ts_as4 = bool(getattr(w.factory.fsm.protocol, "fourbytesas", False))
             self.ts_body = {"attr": {"1": 0, "2": [[2, [rng.pick([100, 64512, 65001]), rng.pick([1, 64999])]]], "3": "10.9.8.7", "5": 100},
@@ -150,6 +155,11 @@ class RestCtx(FsmCtx):
                 self.ts_phase = None
                 return None
             self.ts_phase = 2
+            try:
+                from oslo_config import cfg as ocfg
+                self.ts_rem1 = dict(ocfg.CONF.bgp.running_config["capability"]["remote"] or {})
+            except Exception:
+                self.ts_rem1 = {}
             return ["pclose", k[-1], True]
         if ph == 2:
             for k, c in enumerate(live):
@@ -160,7 +170,15 @@ class RestCtx(FsmCtx):
                     return ["conn_ok", k]
             k = [i for i, c in enumerate(live) if c.readable()]
             if st == "OPENSENT" and k:
-                caps = [rp.cap_mp(1, 1), rp.cap_rr()] + ([] if self.ts_as4 else [rp.cap_as4(cfg["remote_as"])])
+                # (the other route-refresh code point than the first session's peer offered, if it offered only one)
+                rem = {}
+                try:
+                    from oslo_config import cfg as ocfg
+                    rem = ocfg.CONF.bgp.running_config["capability"]["remote"] or {}
+                except Exception:
+                    pass
+                rr_cap = rp.cap_rr() if "cisco_route_refresh" in getattr(self, "ts_rem1", rem) else rp.cap_rr_cisco()
+                caps = [rp.cap_mp(1, 1), rr_cap] + ([] if self.ts_as4 else [rp.cap_as4(cfg["remote_as"])])
                 self.ts_phase = 3
                 return ["send", k[-1], rp.encode_open(cfg["remote_as"], 90, "2.2.2.2", caps).hex(), []]
             if w.reactor.due():
@@ -171,6 +189,9 @@ class RestCtx(FsmCtx):
             k = [i for i, c in enumerate(live) if c.readable()]
             if st == "OPENCONFIRM" and k:
                 return ["send", k[-1], rp.encode_keepalive().hex(), []]
+            if st == "ESTABLISHED" and getattr(self, "ts_rr", False):
+                self.ts_rr = False
+                return ["rest", "POST", "/v1/peer/%s/send/route-refresh" % PEER, "ok", {"afi": 1, "safi": 1, "res": 0}]
             self.ts_phase = None
             if st == "ESTABLISHED":
                 self.stats["gen:same_attributes_in_second_session_with_other_as_width"] += 1
@@ -290,6 +311,20 @@ class RestCtx(FsmCtx):
             attr = {"1": 0, "2": [], "5": 100,
                     "14": {"afi_safi": [2, 1], "nexthop": "2001:db8::1", "nlri": ["2001:db8:%x::/48" % rng.randrange(65536)]}}
             nlri, withdraw = [], []
+        if attr and "14" not in attr and rng.chance(0.06):
+            # a request the encoder cannot build: must be refused, nothing may be written
+            bad = rng.pick(["nexthop6", "prefix33", "aspath", "origin", "med"])
+            if bad == "nexthop6":
+                attr["3"] = "fe80::1"
+            elif bad == "prefix33":
+                nlri = ["10.0.0.0/33"]
+            elif bad == "aspath":
+                attr["2"] = [[2, ["x"]]]
+            elif bad == "origin":
+                attr["1"] = "igp"
+            else:
+                attr["4"] = 2 ** 32
+            self.stats["gen:unencodable_request"] += 1
         b = {}
         if attr:
             b["attr"] = attr
@@ -383,6 +418,13 @@ class RestCtx(FsmCtx):
                 raise Violation("C16", "method", "%s/reveals-state" % what, "%s answered with peer state: %s" % (what, str(js)[:200]))
             return
         # ---- valid credentials, registered method
+        if status == 401 and self.cfg["username"] == "":
+            # HTTP basic authentication has no way to present an empty user name: with a blank configured user
+            # nobody can log in (the surface stays closed, which is what the property asks for)
+            self.stats["blank_user_configured:nobody_can_log_in"] += 1
+            if snapshot(w) != self.snap:
+                raise Violation("C16", "auth", "%s/refused-request-took-effect" % what, "%s answered 401 but changed the agent" % what)
+            return
         if status == 401:
             raise Violation("C16", "auth", "%s/ok-credentials-rejected" % what, "%s with the configured credentials answered 401" % what)
         gated = rule[0] in GATED_ROUTES
@@ -424,7 +466,20 @@ class RestCtx(FsmCtx):
         self.nontrivial = True
         if route == "send/route-refresh":
             frames, rest = rp.deframe(grown)
-            good = len(frames) == 1 and not rest and not frames[0].error and frames[0].type in (rp.ROUTE_REFRESH, rp.CISCO_ROUTE_REFRESH)
+            # the code point must be one the peer of THIS session advertised (2 -> type 5, 128 -> type 128)
+            allowed = set()
+            try:
+                po = [f for f in rp.deframe(c.delivered)[0] if f.type == rp.OPEN and not f.error][0]
+                codes = [code for code, _ in rp.decode_open(po.body).caps]
+                if 2 in codes:
+                    allowed.add(rp.ROUTE_REFRESH)
+                if 128 in codes:
+                    allowed.add(rp.CISCO_ROUTE_REFRESH)
+            except (IndexError, ValueError):
+                pass
+            if not allowed:
+                allowed = {rp.ROUTE_REFRESH, rp.CISCO_ROUTE_REFRESH}
+            good = len(frames) == 1 and not rest and not frames[0].error and frames[0].type in allowed
             if good:
                 afi, res, safi = rp.decode_route_refresh(frames[0].body)
                 good = (afi, safi, res) == (body["afi"], body["safi"], body.get("res", 0))
@@ -583,7 +638,7 @@ class RestProfile(FsmProfile):
         cfg["rib"] = rng.chance(0.3)
         cfg["two_sessions"] = rng.chance(0.12)
         if rng.chance(0.3):
-            cfg["username"], cfg["password"] = rng.pick([("admin", "s3cret"), ("op", "admin"), ("root", "")])
+            cfg["username"], cfg["password"] = rng.pick([("admin", "s3cret"), ("op", "admin"), ("root", ""), ("", "")])
         # bias towards established sessions: steer
         return cfg
 
